@@ -290,9 +290,11 @@ impl LruManager {
         let mut freed = 0u64;
 
         while freed < target_bytes {
-            if self.evict_tail().is_none() {
+            let Some(slot) = self.evict_tail() else {
                 break;
-            }
+            };
+            // Return the freed slot to the free list so it can be reused
+            self.free_list.push(slot);
             evicted += 1;
             freed += avg_entry_size;
         }
